@@ -1,5 +1,6 @@
 import RxnModel.Proofs.TimersRun
 import RxnModel.Proofs.TimersOpRefine
+import RxnModel.Proofs.TimersCompose
 /-!
 # C10 — event-time timers fire exactly once, in order, and survive recovery
 
@@ -49,6 +50,18 @@ theorem registry_refines_spec_partial (kgc start stop maxCache : Nat) (ids : Lis
   have h := run_refines ops _ _ kgc start stop (rel_init kgc start stop maxCache ids hss hstop)
     (shape_new [] kgc start stop maxCache hss) hv
   exact ⟨h.2.2, h.1⟩
+
+/-- full for every `int64` timer timestamp (before 1970 too) on histories whose reported watermarks are not before 1970
+— so D51 needs a watermark before 1970 (a job working through pre-1970 data): with watermarks ≥ 0 the composite stays at or
+after the epoch, `SetTimer` ignores every timer before it exactly as the specification does, and the registry refines the
+specification as in `registry_refines_spec_partial` -/
+theorem registry_refines_spec_nonneg_watermarks (kgc start stop maxCache : Nat) (ids : List String) (hss : start ≤ stop)
+    (hstop : stop ≤ 65536) (ops : List ROp) (hv : ∀ op ∈ ops, op.validNN kgc start stop) :
+    OutputsAgree ((Registry.new (Store.new [] kgc start stop maxCache) ids).run ops).2 ((Spec.new ids).run ops).2 ∧
+    Rel ((Registry.new (Store.new [] kgc start stop maxCache) ids).run ops).1 ((Spec.new ids).run ops).1 := by
+  have h := run_refines_nn ops _ _ kgc start stop (rel_init kgc start stop maxCache ids hss hstop)
+    (shape_new [] kgc start stop maxCache hss) (nonNeg_new _ ids) hv
+  exact ⟨h.2, h.1⟩
 
 /-- the specification itself: a timer is pending from its registration (if later than the watermark) until the first
 advance whose composite watermark reaches it, when it fires — once — and registering it again changes nothing -/
@@ -154,6 +167,21 @@ theorem op_refines_spec_partial (o : Op) (sp : Spec) (kgc start stop : Nat) (h :
   · intro p hp
     have hp' := List.mem_filter.mp hp
     exact s4 p hp'.1 (by simpa using hp'.2)
+
+/-- composition with C07 (the DKV is no longer an assumption): in every state of the LSM reachable by any history of
+puts, deletes, memtable rotations, flush begins/commits, compaction commits and reads, the key set `dbOf s` (what the
+code's `ScanPrefix` returns for the empty prefix) is a `Timers.DB` — strictly ascending —, the code's `ScanPrefix(p)`
+over the tables `AllTablesForPrefix` selects returns exactly `DB.scan (dbOf s) p` (what `loadFromDB` iterates), a `Put`
+acts on it as `DB.put`, a `Delete` as `DB.delete`, and every other action leaves it unchanged. So the timer model's
+DKV is the image of the proven LSM model under `dbOf`. (Uses `C07.scan_code_returns_live_keys`, `C07.spec_last_write_wins`.) -/
+theorem dkv_is_timer_db (as : List Lsm.Act) (s : Lsm.State) (m : Lsm.Spec) (h : Lsm.runBoth {} [] as = some (s, m)) :
+    Sorted (dbOf s) ∧
+    (∀ p, (Rescale.scanR s p).map (·.key) = DB.scan (dbOf s) p) ∧
+    (∀ k v s', Lsm.step s (.put k v) = some s' → dbOf s' = DB.put (dbOf s) k) ∧
+    (∀ k s', Lsm.step s (.del k) = some s' → dbOf s' = DB.delete (dbOf s) k) ∧
+    (∀ a s', Lsm.specStep m s.seq a = m → Lsm.step s a = some s' → dbOf s' = dbOf s) :=
+  ⟨dbOf_sorted as s m h, scan_bridge as s m h, fun k v s' hs => put_bridge as s m h k v s' hs,
+   fun k s' hs => delete_bridge as s m h k s' hs, fun a s' hw hs => background_bridge as s m h a hw s' hs⟩
 
 /-! ### D51: timers before 1970 (open finding)
 
